@@ -2,6 +2,7 @@
 UNITS = {
     "health": dict(engine="verus", serves=["C20"]),
     "authz": dict(engine="verus", serves=["C02", "C11"]),
+    "handler": dict(engine="verus", serves=["C01", "C05", "C11", "C14", "C15"]),
     "authorizer": dict(engine="verus", serves=["C03", "C11", "C01"]),
 }
 
@@ -45,6 +46,15 @@ PROPERTIES["C02"] = dict(
                "Not yet under contract: from_authorization_item (document -> tables; duplicate names in a section make the last one win), "
                "so the claim is over the tables the agent holds. A request repeating a query key is matched on its first occurrence.",
     design_ref="DESIGN.md section 3 C02",
+    assumptions=[],
+)
+
+PROPERTIES["C01"] = dict(
+    units=["handler", "authorizer"],
+    technique="Verus contracts on the extracted real functions (capability precondition on the upstream write primitive)",
+    level_text="Deductive proof (Verus/Z3), all requests/configurations.",
+    level_note="see evidence trusted_base",
+    design_ref="DESIGN.md section 3 C01",
     assumptions=[],
 )
 
